@@ -52,6 +52,8 @@ type stressStream struct {
 	foreign   atomic.Int64
 	lostBad   atomic.Int64
 	callbacks atomic.Int64
+	reMu      sync.Mutex
+	reTags    []*tag // records pushed from inside callbacks
 }
 
 func (s *stressStream) ReassemblyComplete(msgs []*auparse.AuditMessage) {
@@ -81,6 +83,14 @@ func (s *stressStream) ReassemblyComplete(msgs []*auparse.AuditMessage) {
 	if s.reenter && first != nil && first.id%16 == 0 {
 		s.r.Maintain()
 	}
+	if s.reenter && first != nil && first.id%16 == 1 {
+		// a callback pushes a fresh record, whoever delivers it (a pusher, the ticker's Maintain, the Close flush)
+		t := &tag{seq: first.seq + 3, id: -1}
+		s.reMu.Lock()
+		s.reTags = append(s.reTags, t)
+		s.reMu.Unlock()
+		s.r.PushMessage(&auparse.AuditMessage{RecordType: 1300, Sequence: t.seq, Payload: t})
+	}
 }
 
 func (s *stressStream) EventsLost(n int) {
@@ -92,6 +102,7 @@ func (s *stressStream) EventsLost(n int) {
 // StressResult is the outcome of one stress repetition.
 type StressResult struct {
 	Pushes, Delivered, Callbacks int64
+	Reentrant                    int64 // records pushed from inside callbacks
 	BeforeClose                  int64
 	Findings                     []Finding
 	Config                       string
@@ -214,6 +225,12 @@ func Stress(rng *mon.Rand, opsPerG int) *StressResult {
 			case !t.eoe && t.before && n != 1:
 				add("lost-before-close", "record g%d seq=%d whose push returned before Close was invoked was delivered %d times", g, t.seq, n)
 			}
+		}
+	}
+	for _, t := range st.reTags {
+		res.Reentrant++
+		if n := atomic.LoadInt32(&t.count); n > 1 {
+			add("delivered-twice", "record seq=%d pushed from inside a callback delivered %d times", t.seq, n)
 		}
 	}
 	res.Callbacks = st.callbacks.Load()
